@@ -423,6 +423,9 @@ impl SubRule {
     }
 
     fn match_opt_states(&self, opt_states: &[Item], word: &Word, pos: &mut SegPos, forwards: bool) -> Result<bool, RuleRuntimeError> {
+        // a before-context is matched right to left, so the elements inside the optional must be read in that order too
+        let reversed: Vec<Item>;
+        let opt_states = if forwards { opt_states } else { reversed = opt_states.iter().rev().cloned().collect(); &reversed };
         let mut si = 0;
         while si < opt_states.len() {
             #[cfg(feature = "verif")] crate::verif::tick(108);
